@@ -4,6 +4,7 @@ import (
 	"bytes"
 	"fmt"
 	"io"
+	"math"
 	"runtime"
 	"runtime/metrics"
 	"sort"
@@ -34,6 +35,12 @@ import (
 //      11 PackfileReader.ReadObject once after a valid header -> (type body)
 //      12 NewPackfileReader + ReadObject until failure   13 ReadPktLine
 //      14 UintListDecoder.Read   15 FloatListDecoder.Read
+//      16 / 17 / 18 = 2 / 3 / 4 with NewStrListDecoder(true); 19 = 14 with NewUintListDecoder(true);
+//      21 = 15 with NewFloatListDecoder(true)   (the reuse branch of strSlice / make*Slice)
+//   case = (22 commitbytes cut nparents): Commit.ReadFrom on commitbytes[:cut] of a VALID commit;
+//   case = (23 tablebytes cut): Table.ReadFrom on tablebytes[:cut] of a VALID table.
+//      Oracle: a strict prefix is accepted only if it is itself a complete encoding (a commit cut
+//      at the end of the message line or of a whole parent line); any other cut must be rejected.
 //   obs  = (0 value) | (1) | (2)         0 ok, 1 error, 2 panic; values as in c18.go
 //   case = (20 packfile ((content sum)...) ((compressed decoded)...) ((blocksum (pk...) idxsum)...))
 //      ObjectReceiver.Receive into an empty objmock store; the tables are meow.Checksum,
@@ -82,6 +89,39 @@ func c17Entry(entry int, b []byte) *xt.T {
 			return c17Err()
 		}
 		return c18Ok(xt.Strs(objects.NewStrListDecoder(false).Decode(b)))
+	case 16:
+		_, sl, err := objects.NewStrListDecoder(true).Read(bytes.NewReader(b))
+		if err != nil {
+			return c17Err()
+		}
+		return c18Ok(xt.Strs(sl))
+	case 17:
+		_, raw, err := objects.NewStrListDecoder(true).ReadBytes(bytes.NewReader(b))
+		if err != nil {
+			return c17Err()
+		}
+		return c18Ok(xt.Bytes(raw))
+	case 18:
+		if _, err := objects.ValidateStrListBytes(b); err != nil {
+			return c17Err()
+		}
+		return c18Ok(xt.Strs(objects.NewStrListDecoder(true).Decode(b)))
+	case 19:
+		_, sl, err := objects.NewUintListDecoder(true).Read(bytes.NewReader(b))
+		if err != nil {
+			return c17Err()
+		}
+		return c18Ok(xt.U32s(sl))
+	case 21:
+		_, sl, err := objects.NewFloatListDecoder(true).Read(bytes.NewReader(b))
+		if err != nil {
+			return c17Err()
+		}
+		l := xt.N()
+		for _, f := range sl {
+			l.Add(xt.L(math.Float64bits(f)))
+		}
+		return c18Ok(l)
 	case 10:
 		ot, u, err := packfile.VerifDecodeObjTypeAndLen(bytes.NewReader(b))
 		if err != nil {
@@ -105,7 +145,7 @@ func c17Entry(entry int, b []byte) *xt.T {
 		}
 		return c18Ok(xt.Str(s))
 	}
-	kind := map[int]int{5: 4, 6: 3, 7: 5, 8: 2, 9: 7, 12: 0, 14: 6, 15: 9}[entry]
+	kind := map[int]int{5: 4, 6: 3, 7: 5, 8: 2, 9: 7, 12: 0, 14: 6, 15: 9, 22: 2, 23: 3}[entry]
 	o := c18Decode(kind, bytes.NewReader(b))
 	if o.Kids[0].N == 1 {
 		return c17Err()
@@ -163,6 +203,10 @@ func runC17(ctx *Ctx, c *xt.T) (*xt.T, Verdict) {
 	if entry == c17Receive {
 		return c17RunReceive(b)
 	}
+	full := b
+	if entry == 22 || entry == 23 {
+		b = b[:int(c.Kids[2].N)]
+	}
 	obs, pmsg, alloc, timedOut := c17Guarded(len(b) > 5, func() *xt.T { return c17Entry(entry, b) })
 	if len(b) <= 5 && alloc > c17Budget(len(b)) && pmsg == "" && !timedOut {
 		// the cheap counter is flushed in batches and can blame this call for earlier
@@ -176,6 +220,24 @@ func runC17(ctx *Ctx, c *xt.T) (*xt.T, Verdict) {
 		return obs, Fail("decoder-panic", "entry %d panicked on %x: %s", entry, b, pmsg)
 	case alloc > c17Budget(len(b)):
 		return obs, Fail("decoder-alloc", "entry %d allocated %d bytes for %d input bytes", entry, alloc, len(b))
+	}
+	if entry == 22 || entry == 23 {
+		// which cuts leave a complete encoding is known from the structure of the seed alone
+		complete := len(b) == len(full)
+		if entry == 22 {
+			for j := 0; j <= int(c.Kids[3].N); j++ {
+				if len(b) == len(full)-24*j { // "parent " + 16 bytes + "\n"
+					complete = true
+				}
+			}
+		}
+		accepted := obs.Kids[0].N == 0
+		switch {
+		case accepted && !complete:
+			return obs, Fail("truncated-object-accepted", "entry %d accepted the first %d of %d bytes of a valid encoding, which end inside a field: %x", entry, len(b), len(full), b)
+		case !accepted && complete:
+			return obs, Fail("complete-object-rejected", "entry %d rejected a complete encoding (%d of %d bytes)", entry, len(b), len(full))
+		}
 	}
 	return obs, OK()
 }
@@ -572,7 +634,7 @@ func c17Seeds(ctx *Ctx, entry int) [][]byte {
 	var out [][]byte
 	for i := 0; i < n; i++ {
 		switch entry {
-		case 0, 2, 3, 4:
+		case 0, 2, 3, 4, 16, 17, 18:
 			out = append(out, c18Stream(ctx, 8))
 		case 1, 5:
 			out = append(out, c18BlockBytes(c18Rows(ctx, 1+ctx.Pick(4), 1+ctx.Pick(3))))
@@ -594,7 +656,7 @@ func c17Seeds(ctx *Ctx, entry int) [][]byte {
 			out = append(out, c18Stream(ctx, 0))
 		case 13:
 			out = append(out, c18Stream(ctx, 1))
-		case 14:
+		case 14, 19:
 			out = append(out, c18Stream(ctx, 6))
 		default:
 			out = append(out, c18Stream(ctx, 9))
@@ -603,7 +665,7 @@ func c17Seeds(ctx *Ctx, entry int) [][]byte {
 	return out
 }
 
-var c17Entries = []int{0, 1, 2, 3, 4, 5, 6, 7, 8, 9, 10, 11, 12, 13, 14, 15}
+var c17Entries = []int{0, 1, 2, 3, 4, 5, 6, 7, 8, 9, 10, 11, 12, 13, 14, 15, 16, 17, 18, 19, 21}
 
 func genC17(ctx *Ctx) []Case {
 	var cases []Case
@@ -619,9 +681,28 @@ func genC17(ctx *Ctx) []Case {
 		addB("witness", e, []byte{0, 0})
 		addB("witness", e, []byte{0, 0, 0, 1, 0, 0, 0, 1, 0})
 	}
-	for _, e := range []int{2, 3, 5, 6, 9, 14, 15} {
+	for _, e := range []int{2, 3, 5, 6, 9, 14, 15, 16, 17, 19, 21} {
 		addB("witness", e, []byte{0xff, 0xff, 0xff, 0xff})
 		addB("witness", e, []byte{0, 0, 0, 1, 0xff, 0xff, 0xff, 0xff})
+		// counts around the decoder's own capacity (256), the clamp (1024) and far above
+		for _, cnt := range [][]byte{{0, 0, 1, 0}, {0, 0, 1, 1}, {0, 0, 4, 0}, {0, 0, 4, 1}, {0, 128, 0, 0}} {
+			addB("witness", e, append(append([]byte{}, cnt...), 0, 0))
+		}
+	}
+	// every cut of valid commits and tables: only complete encodings may be accepted
+	for k := 0; k < 4; k++ {
+		var parents [][]byte
+		for j := 0; j < k; j++ {
+			parents = append(parents, c18Sum(ctx))
+		}
+		seed := c18CommitBytes(ctx, parents)
+		for cut := 0; cut <= len(seed); cut++ {
+			add("prefix", true, xt.N(xt.LI(22), xt.Bytes(seed), xt.LI(cut), xt.LI(k)))
+		}
+		tseed := c18RandTable(ctx)
+		for cut := 0; cut <= len(tseed); cut++ {
+			add("prefix", true, xt.N(xt.LI(23), xt.Bytes(tseed), xt.LI(cut)))
+		}
 	}
 	addB("witness", 6, []byte("columns \x00\x00\x00\x00\npk \x00\x00\x00\x00\nrows \xff\xff\xff\xff\n"))
 	addB("witness", 11, packfile.VerifEncodeObjTypeAndLen(3, 1<<63-1))
@@ -668,7 +749,7 @@ func genC17(ctx *Ctx) []Case {
 				m[ctx.Pick(len(m))] ^= 1 << uint(ctx.Pick(8))
 				addB("bitflip", entry, m)
 			}
-			big := [][]byte{{0xff, 0xff, 0xff, 0xff}, {0x7f, 0xff, 0xff, 0xff}, {0x80, 0, 0, 0}, {0, 1, 0, 0}, {0, 0, 4, 1}, {0xff, 0xff}}
+			big := [][]byte{{0xff, 0xff, 0xff, 0xff}, {0x7f, 0xff, 0xff, 0xff}, {0x80, 0, 0, 0}, {0, 0x80, 0, 0}, {0, 1, 0, 0}, {0, 0, 4, 1}, {0, 0, 1, 1}, {0xff, 0xff}}
 			lim := len(seed)
 			if lim > 48 {
 				lim = 48
